@@ -31,7 +31,9 @@ def _run_one(item):
             from hexvc.tasks import run_task
 
             t = reg.func_tasks[key]
-            r = run_task(src, reg.contracts, reg.loops, t.get("qualname", key), natives=reg.natives, timeout_ms=timeout_ms,
+            nat = dict(reg.natives)
+            nat.update(t.get("natives", {}))
+            r = run_task(src, reg.contracts, reg.loops, t.get("qualname", key), natives=nat, timeout_ms=timeout_ms,
                          props=t.get("props"), builder=t.get("builder"), force_inline=t.get("force_inline", ()),
                          extra_contract=t.get("contract"))
             r.qualname = key
